@@ -62,6 +62,27 @@ json prodMapToJson(const AutBase::ProductTranslMap& m)
 	return v;
 }
 
+// "split": k in a case = the operand A is built in two stages: its first k rules (and final states), then the
+// operation is run once and its result discarded (warm), then the remaining rules are added and the operation is
+// run for real on the SAME object.  A result must depend on the current value only (no stale per-object memo).
+template <class Warm>
+void BuildMaybeSplit(TA& a, const json& c, Alpha& alpha, Warm warm)
+{
+	const json& ja = c.at("A");
+	if (!c.contains("split")) { BuildTA(a, ja, alpha); return; }
+	size_t k = c["split"].get<size_t>();
+	json first = ja, rest;
+	json r1 = json::array(), r2 = json::array();
+	for (size_t i = 0; i < ja["rules"].size(); ++i) { (i < k ? r1 : r2).push_back(ja["rules"][i]); }
+	first["rules"] = r1;
+	rest["rules"] = r2;
+	rest["fin"] = json::array();
+	BuildTA(a, first, alpha);
+	SetStage("warm-up on the partial automaton");
+	try { warm(a); } catch (const std::exception&) { }
+	BuildTA(a, rest, alpha);
+}
+
 void fillMap(AutBase::StateToStateMap& m, const json& j)
 {
 	for (const json& kv : j) { m[kv.at(0).get<size_t>()] = kv.at(1).get<size_t>(); }
@@ -74,8 +95,9 @@ VDRIVE_OP(incl)
 {
 	Alpha alpha;
 	if (c.contains("syms")) { alpha.RegisterAll(c["syms"]); }
-	TA a = MakeTA(c.at("A"), alpha);
 	TA b = MakeTA(c.at("B"), alpha);
+	TA a;
+	BuildMaybeSplit(a, c, alpha, [&b](TA& x) { for (const Sel& sel : SELS) { runIncl(x, b, sel); runIncl(b, x, sel); } });
 	json res;
 	json v = json::array();
 	for (const Sel& sel : SELS) { v.push_back(runIncl(a, b, sel)); }
@@ -152,7 +174,8 @@ VDRIVE_OP(trim)
 {
 	Alpha alpha;
 	if (c.contains("syms")) { alpha.RegisterAll(c["syms"]); }
-	TA a = MakeTA(c.at("A"), alpha);
+	TA a;
+	BuildMaybeSplit(a, c, alpha, [](TA& x) { x.RemoveUnreachableStates(); x.RemoveUselessStates(); x.IsLangEmpty(); });
 	json res;
 	{
 		SetStage("RemoveUnreachableStates");
@@ -182,8 +205,40 @@ VDRIVE_OP(sim)
 {
 	Alpha alpha;
 	if (c.contains("syms")) { alpha.RegisterAll(c["syms"]); }
-	TA a = MakeTA(c.at("A"), alpha);
 	size_t n = c.at("n").get<size_t>();
+	TA a;
+	if (c.contains("split"))
+	{	// the same object is asked twice: once with only the first "split" rules, then again after the rest was added
+		// (a result must depend on the automaton's current value only, never on what was computed for it before)
+		json first = c.at("A");
+		json rules = json::array();
+		size_t k = c["split"].get<size_t>();
+		for (size_t i = 0; i < first["rules"].size() && i < k; ++i) { rules.push_back(first["rules"][i]); }
+		first["rules"] = rules;
+		BuildTA(a, first, alpha);
+		for (int dir = 0; dir < 2; ++dir)
+		{
+			SetStage("ComputeSimulation(warm-up)");
+			try
+			{
+				SimParam sp;
+				sp.SetRelation(dir ? SimParam::e_sim_relation::TA_UPWARD : SimParam::e_sim_relation::TA_DOWNWARD);
+				sp.SetNumStates(n);
+				if (dir == 0) { a.ComputeSimulation(sp); }       // upward is only defined on trimmed automata: not asked on the prefix
+			}
+			catch (const std::exception&) { }
+		}
+		json rest;
+		rest["fin"] = json::array();
+		rules = json::array();
+		for (size_t i = k; i < c.at("A")["rules"].size(); ++i) { rules.push_back(c.at("A")["rules"][i]); }
+		rest["rules"] = rules;
+		BuildTA(a, rest, alpha);
+	}
+	else
+	{
+		BuildTA(a, c.at("A"), alpha);
+	}
 	json res;
 	for (int dir = 0; dir < 2; ++dir)
 	{
@@ -225,7 +280,8 @@ VDRIVE_OP(reduce)
 {
 	Alpha alpha;
 	if (c.contains("syms")) { alpha.RegisterAll(c["syms"]); }
-	TA a = MakeTA(c.at("A"), alpha);
+	TA a;
+	BuildMaybeSplit(a, c, alpha, [](TA& x) { x.Reduce(); });
 	SetStage("Reduce");
 	TA r = a.Reduce();
 	SetStage("readback");
@@ -241,7 +297,8 @@ VDRIVE_OP(compl)
 {
 	Alpha alpha;
 	if (c.contains("syms")) { alpha.RegisterAll(c["syms"]); }
-	TA a = MakeTA(c.at("A"), alpha);
+	TA a;
+	BuildMaybeSplit(a, c, alpha, [](TA& x) { x.Complement(); });
 	SetStage("Complement");
 	TA r = a.Complement();
 	SetStage("readback");
@@ -351,12 +408,169 @@ VDRIVE_OP(witness)
 {
 	Alpha alpha;
 	if (c.contains("syms")) { alpha.RegisterAll(c["syms"]); }
-	TA a = MakeTA(c.at("A"), alpha);
+	TA a;
+	BuildMaybeSplit(a, c, alpha, [](TA& x) { x.GetCandidateTree(); });
 	SetStage("GetCandidateTree");
 	TA r = a.GetCandidateTree();
 	SetStage("readback");
 	json res;
 	res["R"] = ReadTA(r, alpha);
 	res["A_after"] = ReadTA(a, alpha);
+	return res;
+}
+
+// ---------------------------------------------------------------- agreement arm (C01, thorough and quick)
+// {"op":"inclagree","seed":S,"count":N,"shape":"dense"|"mid"|"wide"}: N seeded random pairs are generated HERE (no JSON per
+// pair), all 8 selections are run on each; only pairs on which the selections do not all return the same verdict
+// (or one throws) are returned, as complete "incl" events that TLC then judges with InclFails.
+#include <random>
+namespace {
+json randAut(std::mt19937& rng, const std::vector<std::pair<std::string, size_t>>& alpha, size_t nq, size_t nrules, size_t base)
+{
+	json rules = json::array();
+	for (size_t i = 0; i < nrules; ++i)
+	{
+		const auto& s = alpha[rng() % alpha.size()];
+		json kids = json::array();
+		for (size_t k = 0; k < s.second; ++k) { kids.push_back(base + rng() % nq); }
+		rules.push_back(json::array({s.first, kids, base + rng() % nq}));
+	}
+	json fin = json::array();
+	for (size_t q = 0; q < nq; ++q) { if (rng() % 100 < 35) { fin.push_back(base + q); } }
+	if (fin.empty()) { fin.push_back(base + rng() % nq); }
+	json a;
+	a["fin"] = fin;
+	a["rules"] = rules;
+	return a;
+}
+}
+
+VDRIVE_OP(inclagree)
+{
+	std::mt19937 rng(c.at("seed").get<unsigned>());
+	size_t count = c.at("count").get<size_t>();
+	std::string shape = c.value("shape", "dense");
+	typedef std::vector<std::pair<std::string, size_t>> AlphaV;
+	const AlphaV alphas[4] = {
+		{{"a", 0}, {"b", 0}, {"f", 2}},
+		{{"a", 0}, {"g", 1}, {"f", 2}},
+		{{"a", 0}, {"b", 0}, {"g", 1}, {"f", 2}},
+		{{"a", 0}, {"b", 0}, {"g", 1}, {"h", 1}, {"f", 2}, {"k", 2}}};
+	json disagree = json::array();
+	size_t nonIncluded = 0, included = 0;
+	for (size_t i = 0; i < count; ++i)
+	{
+		size_t nqa, nqb, nra, nrb;
+		const AlphaV* al;
+		if (shape == "dense") { al = &alphas[rng() % 2]; nqa = 1 + rng() % 3; nra = 2 + rng() % 4; nqb = 2 + rng() % 3; nrb = 3 + rng() % 6; }
+		else if (shape == "mid") { al = &alphas[2]; nqa = 2 + rng() % 3; nra = 3 + rng() % 6; nqb = 2 + rng() % 4; nrb = 4 + rng() % 9; }
+		else { al = &alphas[3]; nqa = 2 + rng() % 5; nra = 4 + rng() % 13; nqb = 2 + rng() % 5; nrb = 4 + rng() % 13; }
+		json ja = randAut(rng, *al, nqa, nra, (rng() % 2) ? 0 : 3);
+		json jb = randAut(rng, *al, nqb, nrb, (rng() % 3 == 0) ? 0 : 10);
+		SetStage(("inclagree pair " + std::to_string(i)).c_str());
+		Alpha alpha;
+		TA a = MakeTA(ja, alpha);
+		TA b = MakeTA(jb, alpha);
+		json v = json::array();
+		bool same = true;
+		for (const Sel& sel : SELS)
+		{
+			v.push_back(runIncl(a, b, sel));
+			if (v.back() != v[0] || (v.back() != "T" && v.back() != "F")) { same = false; }
+		}
+		if (v[0] == "T") { ++included; } else { ++nonIncluded; }
+		if (!same && disagree.size() < 25)
+		{
+			json ev;
+			ev["op"] = "incl";
+			ev["A"] = ja; ev["B"] = jb;
+			ev["outcome"] = "ok";
+			ev["src"] = "agreement-arm";
+			ev["id"] = json::array({"agree", c.at("seed"), i});
+			json r;
+			r["v"] = v;
+			r["A_after"] = ReadTA(a, alpha);
+			r["B_after"] = ReadTA(b, alpha);
+			ev["res"] = r;
+			disagree.push_back(ev);
+		}
+	}
+	json res;
+	res["count"] = count;
+	res["included"] = included;
+	res["nonincluded"] = nonIncluded;
+	res["disagree"] = disagree;
+	return res;
+}
+
+// ---------------------------------------------------------------- agreement arm for C02
+// {"op":"c02agree","seed":S,"count":N,"shape":..}: random pairs generated here; consequences of the contracts are
+// checked with the library's own (cross-checked) inclusion: Intersection == IntersectionBU, both within A and B,
+// A and B within Union.  Only pairs that violate one of them come back, as full union / isect events for TLC.
+VDRIVE_OP(c02agree)
+{
+	std::mt19937 rng(c.at("seed").get<unsigned>());
+	size_t count = c.at("count").get<size_t>();
+	std::string shape = c.value("shape", "dense");
+	typedef std::vector<std::pair<std::string, size_t>> AlphaV;
+	const AlphaV alphas[3] = {
+		{{"a", 0}, {"b", 0}, {"f", 2}},
+		{{"a", 0}, {"g", 1}, {"f", 2}},
+		{{"a", 0}, {"b", 0}, {"g", 1}, {"f", 2}}};
+	json suspicious = json::array();
+	size_t nonEmptyIsect = 0;
+	auto incl = [](const TA& x, const TA& y) { return TA::CheckInclusion(x, y); };
+	for (size_t i = 0; i < count; ++i)
+	{
+		const AlphaV* al = &alphas[rng() % 3];
+		size_t nqa = 1 + rng() % 4, nqb = 1 + rng() % 4;
+		size_t nra = (shape == "dense") ? 2 + rng() % 5 : 3 + rng() % 8;
+		size_t nrb = (shape == "dense") ? 2 + rng() % 6 : 3 + rng() % 8;
+		json ja = randAut(rng, *al, nqa, nra, 0);
+		json jb = randAut(rng, *al, nqb, nrb, (rng() % 2) ? 0 : 1);
+		SetStage(("c02agree pair " + std::to_string(i)).c_str());
+		Alpha alpha;
+		TA a = MakeTA(ja, alpha);
+		TA b = MakeTA(jb, alpha);
+		AutBase::ProductTranslMap pm1, pm2;
+		TA i1 = TA::Intersection(a, b, &pm1);
+		TA i2 = TA::IntersectionBU(a, b, &pm2);
+		AutBase::StateToStateMap ml, mr;
+		TA u = TA::Union(a, b, &ml, &mr);
+		bool okI = incl(i1, i2) && incl(i2, i1) && incl(i1, a) && incl(i1, b) && incl(i2, a) && incl(i2, b);
+		bool okU = incl(a, u) && incl(b, u);
+		if (!i1.IsLangEmpty()) { ++nonEmptyIsect; }
+		if ((!okI || !okU) && suspicious.size() < 20)
+		{
+			for (int which = 0; which < 3; ++which)
+			{
+				if ((which < 2 && okI) || (which == 2 && okU)) { continue; }
+				json ev;
+				ev["A"] = ja; ev["B"] = jb;
+				ev["outcome"] = "ok";
+				ev["src"] = "c02-agreement-arm";
+				ev["id"] = json::array({"c02agree", c.at("seed"), i, which});
+				json r;
+				if (which < 2)
+				{
+					ev["op"] = "isect"; ev["bu"] = (which == 1); ev["maps"] = "none";
+					r["R"] = ReadTA(which ? i2 : i1, alpha);
+				}
+				else
+				{
+					ev["op"] = "union"; ev["maps"] = "none";
+					r["R"] = ReadTA(u, alpha);
+				}
+				r["A_after"] = ReadTA(a, alpha);
+				r["B_after"] = ReadTA(b, alpha);
+				ev["res"] = r;
+				suspicious.push_back(ev);
+			}
+		}
+	}
+	json res;
+	res["count"] = count;
+	res["nonempty_isect"] = nonEmptyIsect;
+	res["suspicious"] = suspicious;
 	return res;
 }
